@@ -40,6 +40,9 @@ def make_world(ctx, rng, n):
         sub = rng.choice(['', 'lib/', 'a/b/'])
         name = '%sinc%d.lua' % (sub, i)
         body = b''.join(b'i%d_%d=%d\n' % (i, j, j) for j in range(rng.randrange(0, 4)))
+        if rng.random() < 0.4:
+            # bytes some text APIs take for line ends but a Lua file does not: a lone CR, FF, VT inside a long string / a comment
+            body += rng.choice([b's%d=[[a\rb]]\n', b'-- c%d\rd\n', b't%d=[[x\x0cy\x0bz]]\n', b'u%d="v"\r\nw=1\n']) % i
         if rng.random() < 0.5:
             body += b'last%d=1' % i        # no final newline
         I.write(os.path.join(root, name), body)
